@@ -55,6 +55,11 @@ CHECKS = {
    text="Generated-input search: 67 family members (length-prefixed with exactly / at_most / try_configure and 4 consumers, nested two levels, lists of length-prefixed lists, providers in abandoned alternatives; delimiter-echo; indentation-like with_ctx / map_ctx nesting; context under lookahead and recursion) x every string over {0,1,2,a} up to length 6 (quick) / 8 (thorough), plus 300k / 4M random C01/C02-class grammars with with_ctx / ignore_with_ctx / then_with_ctx / map_ctx providers and map_with(ctx) / just.configure / repeated.configure / try_configure consumers at random nodes (incl. repetitions, choices, lookahead, recursion); acceptance, output (which embeds every observed context), check-mode acceptance and the final error must equal the reference's, and the statically configured equivalent must agree wherever the provider is a constant. Exploration within these bounds.",
    note="Trusted: the reference's context threading; ctx_num (test scaffolding shared by builder and reference). at_most-from-context keeps the static lower bound at 0 (the empty-interval corner is C02's known finding KF-b).",
    design="DESIGN.md section 4, C15"),
+ "C07": dict(
+   technique="property-based differential testing of every captured span / slice against the consumed extents computed by a reference PEG evaluator, plus oracle-free span well-formedness (ordered, in range, char boundaries, nesting) and pointer-identity of slices; six input kinds incl. gapped token-span inputs (Input::map over slice and Stream, IterInput); exhaustive templates x short strings + proptest-driven random tier",
+   text="Generated-input search: ~170-234 templates per input kind (7 capture sites x 8 subjects incl. empty matches, rewound and backtracked matches x 4 surroundings, fold_with callbacks, captures under lookahead) x every string over {a,b,c} up to length 5 (quick) / 7 (thorough) for &str, &[char], Stream, slice.map, Stream.map and IterInput with generated gapped token spans and eoi spans, the same templates over {a,e-acute,U+1D11E} for multi-byte text, plus 400k / 5M random C01/C02-class grammars with every node wrapped in a span capture; every span must equal the extent the reference says the node consumed (empty matches: an empty span between the neighbouring tokens), be well-formed and nested, and every slice must be the caller's memory at input[span]. Exploration within these bounds.",
+   note="Trusted: the reference's consumed extents; the span conversion tables (byte offsets / indices / token spans). F7 (empty-match spans of Input::map / IterInput) was found by this check and fixed in /repo (bf56838). Pratt fold-callback spans: C09's module.",
+   design="DESIGN.md section 4, C07"),
 }
 
 NOT_YET = {}
